@@ -1111,10 +1111,51 @@ class Evaluator:
             if isinstance(v, Agg) and v.var == "Some":
                 return self.as_cond(body)
             return self.logic("and", Cond("sym", "isSome(%s)" % vkey(v)), self.as_cond(body))
+        if fn.startswith("core::option::Option::<T>::") and name in ("and_then", "map", "map_or", "unwrap_or") and args and isinstance(args[0], Agg) and args[0].var in ("Some", "None"):
+            # combinators on an option whose variant is known
+            v = args[0]
+            clo = args[-1] if name != "unwrap_or" else None
+            if v.var == "None":
+                return v if name in ("and_then", "map") else args[1]
+            if name == "unwrap_or":
+                return v.fields.get("0")
+            if isinstance(clo, tuple) and clo and clo[0] == "closure":
+                r = self.call_closure(clo, [v.fields.get("0")], depth + 1)
+                return Agg("core::option::Option", "Some", {"0": r}) if name == "map" else r
         if fn.startswith("core::slice::<impl [T]>::len"):
             v = args[0]
             if isinstance(v, Slice) and v.len is not None:
                 return Bits.const(v.len, 64)
+        # constant arrays as iterators: `ARRAY.iter().find(|e| …)` is expanded element by element into a case list
+        # (first match wins), and Option::map_or / map / unwrap_or over the case list into a nested if-then-else
+        isarr = lambda v: isinstance(v, tuple) and v and v[0] == "array"
+        if args and isarr(args[0]) and (fn.startswith("core::slice::<impl [T]>::iter") or fn.endswith("IntoIterator>::into_iter") or fn.endswith("IntoIterator::into_iter")) and len(args) == 1:
+            return args[0]
+        if args and isarr(args[0]) and name == "find" and "Iterator" in fn and len(args) == 2 and isinstance(args[1], tuple) and args[1][0] == "closure" and len(args[0]) <= 65:
+            cases = []
+            for e in args[0][1:]:
+                c = self.as_cond(self.call_closure(args[1], [e], depth + 1))
+                cases.append((c, Agg("core::option::Option", "Some", {"0": e})))
+            cases.append((Cond("true"), Agg("core::option::Option", "None", {})))
+            return ("cases", cases)
+        if args and isinstance(args[0], tuple) and args[0] and args[0][0] == "cases" and fn.startswith("core::option::Option::<T>::") and name in ("map_or", "unwrap_or", "map"):
+            vals = []
+            for c, v in args[0][1]:
+                if v.var == "None":
+                    r = args[1] if name in ("map_or", "unwrap_or") else v
+                elif name == "unwrap_or":
+                    r = v.fields["0"]
+                else:
+                    r = self.call_closure(args[2] if name == "map_or" else args[1], [v.fields["0"]], depth + 1)
+                    if name == "map":
+                        r = Agg("core::option::Option", "Some", {"0": r})
+                vals.append((c, r))
+            if name == "map":
+                return ("cases", vals)
+            res = vals[-1][1]
+            for c, r in reversed(vals[:-1]):
+                res = self._ite(c, r, res)
+            return res
         # local function: inline
         target = None
         if res in self.f.fns and self.f.fns[res].get("thir"):
